@@ -45,7 +45,9 @@ def _spec(draw, tier):
             "attach": draw(st.sampled_from(["decoder", "connect"])),
             "base_sub_aw": draw(st.integers(1, 3)),
             "stim": draw(conforming_stimulus(max_txn=24, min_txn=6)),
-            "src_bias": draw(st.sampled_from([1, 2, 4])), "src_hold": draw(st.integers(1, 4))}
+            "src_bias": draw(st.sampled_from([1, 2, 4])), "src_hold": draw(st.integers(1, 4)),
+            # sources added to the map a second time while it is being built (a no-op that must not shift later indices)
+            "repeat": draw(st.lists(st.integers(0, 40), max_size=3)) if draw(st.integers(0, 3)) == 0 else []}
 
 
 def strategy(tier):
@@ -72,8 +74,12 @@ def check(spec, stats):
     modes = spec["modes"]
     srcs = [event.Source(trigger=m, path=(f"s{k}",)) for k, m in enumerate(modes)]
     emap = event.EventMap()
-    for s in srcs:
+    for k, s in enumerate(srcs):
         emap.add(s)
+        for r in spec.get("repeat", []):
+            if r % max(n, 1) == k:
+                emap.add(srcs[(r * 7) % (k + 1)])
+                stats.label("source_added_twice")
     mon = EventMonitor(emap, trigger=spec["trigger"], data_width=dw, alignment=al)
     stats.label("attach:" + spec["attach"])
     if spec["attach"] == "decoder":
